@@ -31,7 +31,7 @@ func readerCapabilities(g *vf.Rng, rd io.Reader, want []byte, cells map[string]i
 		if i < 0 {
 			return fmt.Sprintf("%s delivered % x, which the window does not contain", what, head(data, 8))
 		}
-		pos, known = i+len(data), len(data) >= 4
+		pos, known = i+len(data), len(data) >= 8 && bytes.Index(want[i+1:], data) < 0 // (only where the place is unambiguous)
 		return ""
 	}
 	for step := 0; step < 12; step++ {
